@@ -13,6 +13,7 @@
 //   mgrid <seed> <sample> <thinning> <burn_in> <dim> <bounded>
 //         Output: <number of samples> <uniforms consumed> <all samples inside the domain> <det>
 //   law   <kind> <target> <seed> <n> ...   (many samples in one line, for the distributional tests)
+//   lawh  <seed> <nstate> w.. <K> op_1 .. op_K law <kind> ...   the same after a history of K other calls in the process
 #include "common.hpp"
 #include "libphysica/Statistics.hpp"
 #include <random>
@@ -340,7 +341,7 @@ static void set_limit(double normal_s, double after_timeouts_s)
 static void handler(vh::Reader& r, vh::Out& o)
 {
 	std::string kind = r.word();
-	if(kind == "law")
+	if(kind == "law" || kind == "lawh")
 		set_limit(30.0, 3.0);
 	else
 		set_limit(4.0, 0.5);
@@ -436,8 +437,22 @@ static void handler(vh::Reader& r, vh::Out& o)
 		o.i(inside);
 		o.i((same && g1 == g2) ? 1 : 0);
 	}
-	else if(kind == "law")
+	else if(kind == "law" || kind == "lawh")
 	{
+		if(kind == "lawh")
+		{
+			// a history of other calls in the same process (own generator, prescribed state) before the sampled series
+			std::mt19937 hg = make_gen(r), hh(12345u);
+			long K			= r.integer();
+			std::vector<Op> ops;
+			for(long k = 0; k < K; k++)
+				ops.push_back(parse_op(r));
+			Ctx hc {&hg, &hh, nullptr};
+			Sink hs {nullptr, {}};
+			for(auto& f : ops)
+				f(hc, hs);
+			r.word();	// "law"
+		}
 		std::string s = r.word();
 		r.word();	// target name: for the predicates
 		unsigned long seed = std::strtoul(r.word().c_str(), nullptr, 10);
